@@ -16,16 +16,16 @@ def mkcfg(c):
 ATTR_POOL = [('attr', 'title', 'v', 'raw'), ('attr', 'title', 'a b', 'dq'), ('attr', 'data-x', 'y', 'sq'), ('attr', 'lang', None, None), ('attr', 'rel', 'e', 'expr'),
              ('attr', 'title', 'w', 'raw'), ('attr', 'data-x', 'z z', 'dq'), ('bool', 'checked'), ('bool', 'foo'), ('implied', 'dir', None), ('implied', 'dir', 'ltr'),
              ('attr', 'class', 'k', 'raw'), ('attr', 'id', 'j', 'raw'), ('attr', 'disabled', None, None), ('attr', 'for', 'f', 'raw'), ('attr', 'class', '', 'dq'),
-             ('implbool', 'b', None), ('implbool', 'hidden', 'x'), ('attr', 'title', None, None)]
+             ('implbool', 'b', None), ('implbool', 'hidden', 'x'), ('attr', 'title', None, None), ('attr', 'data-items', '[1,2]', 'raw'), ('attr', 'a', 'x[1]', 'raw'), ('attr', 'k', '(v)', 'raw')]
 TEXT_POOL = ['txt', 'a b', 'x > y + z', 'item', 'l1', ' sp ']
 
 
 def base_opt(prop):
     names = mk.PLAIN + mk.VOID
-    if prop == 'C01': return dict(names=names, p_void_child=.25, p_noname=.2, p_class=.25, p_id=.1, p_attr=.1, p_text=.1, p_rep=.2, attr_pool=ATTR_POOL[:7], text_pool=TEXT_POOL, p_group=.25, p_grep=.4, max_rep=3)
+    if prop == 'C01': return dict(names=names + [n for n in mk.INLINE_DOC if n not in ('br', 'img', 'input', 'select', 'a', 'label', 'map', 'object', 'iframe', 'textarea', 'button', 'basefont', 'applet', 'font')] + ['EM', 'Span', 'Q', 'S', 'Kbd', 'UL', 'Tr'], p_void_child=.25, p_noname=.2, p_class=.25, p_id=.1, p_attr=.1, p_text=.1, p_rep=.2, attr_pool=ATTR_POOL[:7], text_pool=TEXT_POOL, p_group=.25, p_grep=.4, max_rep=3)
     if prop == 'C02': return dict(names=[n for n in mk.PLAIN if n not in ('select', 'option', 'optgroup')], p_noname=.05, p_class=.4, p_id=0, p_attr=.3, p_text=.35, p_rep=.45, attr_pool=[ATTR_POOL[0], ATTR_POOL[2], ATTR_POOL[5]], text_pool=TEXT_POOL[:5],
                                   p_group=.25, p_grep=.6, max_rep=4, num=.6)
-    if prop == 'C03': return dict(names=['div', 'p', 'span', 'section', 'x', 'ul', 'li', 'em', 'h1', 'td'], p_noname=.15, p_class=.6, p_id=.4, p_attr=.8, p_text=.1, p_rep=.1, attr_pool=ATTR_POOL, text_pool=TEXT_POOL[:2],
+    if prop == 'C03': return dict(names=['div', 'p', 'span', 'section', 'x', 'ul', 'li', 'em', 'h1', 'td'], p_class2=.12, p_noname=.15, p_class=.6, p_id=.4, p_attr=.8, p_text=.1, p_rep=.1, attr_pool=ATTR_POOL, text_pool=TEXT_POOL[:2],
                                   p_group=.1, p_grep=.2, max_rep=2)
     return dict(names=names, p_noname=.1, p_class=.3, p_id=.1, p_attr=.2, p_text=.3, p_rep=.2, attr_pool=ATTR_POOL[:7], text_pool=TEXT_POOL, p_group=.2, p_grep=.4, max_rep=3)
 
@@ -114,7 +114,7 @@ def cases(tier, seed, prop):
             c = rnd.choice(C03_CFGS)
             # a user snippet with several top-level elements: what is written on the alias belongs to each of them
             o2 = dict(opt, names=opt['names'] + ['pair', 'trio', 'pair', 'trio']) if 'snippets' in c else opt
-            out.append({'seq': mk.gen_seq(rnd, o2, [rnd.randint(1, 4)], 1), 'c': c, 'g': 'random'})
+            out.append({'seq': mk.gen_seq(rnd, o2, [rnd.randint(1, 4)], 1), 'c': c, 'g': 'random', 'sep': rnd.choice([' ', ' ', ' ', ' ', ' ', ' ', '\t', '  ', '\n', ' \t'])})
     elif prop == 'C04':
         n = 3000 if tier == 'quick' else 40000
         # exhaustive short payloads over the punctuation alphabet (well-formed ones only) at two positions
@@ -146,8 +146,8 @@ def cases(tier, seed, prop):
         n = 3000 if tier == 'quick' else 40000
         o13 = dict(base_opt('C04'), names=['div', 'p', 'span', 'ul', 'li', 'em', 'b', 'hr', 'br', 'strong', 'section', 'x', 'table', 'tr', 'td'], p_attr=.5, p_text=.4,
                    attr_pool=[('attr', 'title', None, None), ('attr', 'lang', None, None), ('attr', 'data-x', 'y', 'raw'), ('attr', 'title', '${1}', 'dq'), ('attr', 'alt', '${2:ph} ${1}', 'dq'),
-                              ('attr', 'rel', 'a${3}b', 'dq'), ('attr', 'href', '', 'dq')],
-                   text_pool=['txt', '${1}', '${1:one} and ${2}', 'l1\nl2', '${2:b}${1:a}', 'a ${0} z', 'x ${3:c}', 'foo\nbar ${1}', 'Tom & Jerry', 'a & b\nc & d', 'first ${2:b}\nsecond ${1:a}', '${1:x} one\ntwo', '${3:c}\n${1}\nmid ${2:k}', '${2}\n${1}'])
+                              ('attr', 'rel', 'a${3}b', 'dq'), ('attr', 'href', '', 'dq'), ('attr', 'alt', '${caption}', 'dq'), ('attr', 'title', '${foo}', 'raw')],
+                   text_pool=['txt', '${1}', '${1:one} and ${2}', 'l1\nl2', '${2:b}${1:a}', 'a ${0} z', 'x ${3:c}', 'foo\nbar ${1}', 'Tom & Jerry', 'a & b\nc & d', 'first ${2:b}\nsecond ${1:a}', '${1:x} one\ntwo', '${3:c}\n${1}\nmid ${2:k}', '${2}\n${1}', '${foo}', 'a ${bar} b', '${lang}'])
         for _ in range(n):
             c = {}
             r = rnd.random()
@@ -185,7 +185,7 @@ def cases(tier, seed, prop):
         names = ['div', 'p', 'span', 'ul', 'li', 'em', 'b', 'hr', 'br', 'strong', 'section', 'x', 'table', 'tr', 'td', 'article', 'body', 'i', 'h1', 'nav']
         o12 = dict(base_opt('C04'), names=names, p_attr=.3, p_text=.35, p_noname=.1, p_void_child=.25,
                    attr_pool=[('attr', 'title', 'v', 'raw'), ('attr', 'data-x', 'a b', 'dq'), ('attr', 'lang', None, None), ('attr', 'rel', 'e', 'expr')] if prop == 'C12' else [('attr', 'title', 'v', 'raw'), ('attr', 'data-x', 'a b', 'dq'), ('attr', 'd', 'M0', 'raw'), ('attr', 'as', 'font', 'raw'), ('attr', 'a', '1', 'raw'), ('attr', 's', 'z', 'dq'), ('attr', 'rel', 'e', 'expr'), ('attr', 'on', 'f(x)', 'expr')],
-                   text_pool=['txt', 'a b', 'l1\nl2', 'one\ntwo\nthree', 'x', ' sp '] if prop == 'C12' else ['txt', 'a b', 'l1\nl2', 'one\ntwo\nthree', 'x', 'first\rsecond', 'a\x0bb', 'p\r\nq'])
+                   text_pool=['txt', 'a b', 'l1\nl2', 'one\ntwo\nthree', 'x', ' sp ', 'first\rsecond', 'p\r\nq'] if prop == 'C12' else ['txt', 'a b', 'l1\nl2', 'one\ntwo\nthree', 'x', 'first\rsecond', 'a\x0bb', 'p\r\nq'])
         for _ in range(n):
             seq = mk.gen_seq(rnd, o12, [rnd.randint(1, 8)], 2)
             tidy_C13(seq)
@@ -203,12 +203,21 @@ def cases(tier, seed, prop):
                 c = {'syntax': rnd.choice(['html', 'html', 'xml', 'jsx', 'vue'])}
                 out.append({'s': t, 'c': dict(c, options=rand_layout(rnd)), 'alt': dict(c, options=rand_layout(rnd)), 'g': 'fields'})
     for c in out:
-        if 'seq' in c: c['s'] = mk.print_seq(c['seq'])
+        if 'seq' in c:
+            mk.SEP[:] = [c['sep']] if 'sep' in c else []
+            c['s'] = mk.print_seq(c['seq'])
+    mk.SEP[:] = []
     return out
 
 
 def req(case):
     return '%s;%s' % (hx(case['s']), cfgcodec.encode(mkcfg(case['c'])))
+
+
+def inline_doc(cfg):
+    """the inline-level elements the statement refers to: the documented default list unless the configuration itself overrides it"""
+    o = (cfg.get('options') or {}) if isinstance(cfg, dict) else {}
+    return [x.lower() for x in o['inlineElements']] if 'inlineElements' in o else list(mk.INLINE_DOC)
 
 
 def inline_elements(cfg):
@@ -221,7 +230,7 @@ def oracle_C01(case, o):
     if o[0] != 'ok': return ['no-output| expand(%r) -> %s %s' % (case['s'], o[0], o[1])]
     forest = mk.unroll(mk.flat(case['seq']))
     ctx = (case['c'].get('context') or {}).get('name')
-    mk.implicit_names(forest, ctx, [x.lower() for x in inline_elements(case['c'])])
+    mk.implicit_names(forest, ctx, inline_doc(case['c']))
     want = mk.tag_sequence(forest)
     got = [(t[0], t[1].lower()) for t in mk.read_html(o[1]) if t[0] != 'text']
     if got != want:
@@ -257,7 +266,7 @@ def oracle_C02(case, o):
     if o[0] != 'ok': return ['no-output| expand(%r) -> %s %s' % (case['s'], o[0], o[1])]
     mr = case['c'].get('maxRepeat')
     forest = mk.unroll(mk.flat(case['seq']), None, [mr] if mr else None)
-    mk.implicit_names(forest, None, [x.lower() for x in inline_elements(case['c'])])
+    mk.implicit_names(forest, None, inline_doc(case['c']))
     want = doc_order(forest, [])
     got = []
     for t in mk.read_html(o[1]):
@@ -289,10 +298,11 @@ def spec_attrs(mentions, cfg_options, syntax_attr_map):
     name: last value wins (first under reverseAttributes) at the first position; flags are the disjunction over mentions;
     a declared expression stays an expression"""
     rev = cfg_options.get('output.reverseAttributes')
-    order = []; info = {}
+    order = []; info = {}; multi = set()
     for m in mentions:
         kind = m[0]
         if kind == 'class': name, val, vt, b_, imp = 'class', m[1], 'raw', False, False
+        elif kind == 'class2': name, val, vt, b_, imp = 'class', m[1], 'raw', False, False; multi.add('class')
         elif kind == 'id': name, val, vt, b_, imp = 'id', m[1], 'raw', False, False
         elif kind == 'attr': name, val, vt, b_, imp = m[1], m[2], ('expr' if m[3] == 'expr' else (m[3] or 'raw')), False, False
         elif kind == 'bool': name, val, vt, b_, imp = m[1], None, 'raw', True, False
@@ -312,8 +322,12 @@ def spec_attrs(mentions, cfg_options, syntax_attr_map):
             value = d['vals'][0] if rev and len(d['vals']) > 1 else d['vals'][-1]
             if rev and len(d['vals']) > 1: value = d['vals'][0]
         expr = d['vt_first'] == 'expr' or (d['vt_last'] == 'expr')
-        res.append((name, value, 'expr' if (d['vt_first'] == 'expr' or d['vt_last'] == 'expr') else 'q', d['bool'], d['implied']))
+        res.append((name + '*' if name in multi else name, value, 'expr' if (d['vt_first'] == 'expr' or d['vt_last'] == 'expr') else 'q', d['bool'], d['implied']))
     return res
+
+
+JS_RESERVED = {'for', 'while', 'of', 'async', 'await', 'const', 'let', 'var', 'continue', 'break', 'debugger', 'do', 'export', 'import', 'in', 'instanceof', 'new', 'return', 'switch',
+               'this', 'throw', 'try', 'catch', 'typeof', 'void', 'with', 'yield'}
 
 
 def render_attrs(attrs, opt):
@@ -325,7 +339,17 @@ def render_attrs(attrs, opt):
     case = opt.get('output.attributeCase')
     for name, value, kind, is_bool, implied in attrs:
         if implied and kind != 'expr' and not value: continue        # implied attribute without value is dropped
-        n = amap.get(name, name)
+        if name.endswith('*'):
+            # the "multiple" form `..name`: its own entry of the name table, else the plain one; a value prefix turns the value into
+            # a property access (an expression under jsx)
+            base = name[:-1]
+            n = amap.get(name) or amap.get(base, base)
+            pf = (opt.get('markup.valuePrefix') or {}).get(name)
+            if pf and value:
+                value = '%s.%s' % (pf, value) if re.fullmatch(r'[A-Za-z_$][\w$]*', value) and value not in JS_RESERVED else "%s['%s']" % (pf, value)
+                if opt.get('jsx.enabled'): kind = 'expr'
+            name = base
+        else: n = amap.get(name, name)
         if case == 'upper': n = n.upper()
         elif case == 'lower': n = n.lower()
         boolean = is_bool or name.lower() in booleans
@@ -574,6 +598,10 @@ def oracle_C13(case, o, calls, escaped=False):
         want = expected_fields(forest, False, [], [1])
         got = [int(x) for x in IDX_RE.findall(final)]
         if got != want: v.append('numbering| expand(%r, %r): tabstop indices in document order %r, expected %r' % (case['s'], case['c'], got, want))
+        # read off the output itself (tag syntaxes): no attribute value and no leaf content is left empty without a tabstop
+        if case['c'].get('syntax', 'html') in ('html', 'xml', 'jsx', 'vue', 'xsl', 'svelte'):
+            m = re.search(r'<([\w:-]+)((?:\s[^<>]*)?)></\1>', final) or re.search(r'\s[\w:@.-]+=(?:""|\'\'|\{\})', final)
+            if m: v.append('empty-without-tabstop| expand(%r, %r): %r is left empty without a tabstop' % (case['s'], case['c'], m.group(0)))
     return v
 
 
@@ -669,7 +697,7 @@ def rand_layout(rnd):
 
 FIELD_TPL = ['div>{[${0}${1:tail}]}>p*2', 'div>{a ${0} b}>p', '{x${1}${2:y}z}>em+b', 'ul>{${0}${0}}>li*2', 'p>{pre ${1:a}${2:b} post}>span*3', 'div>{${1:one}${2:two}${3:three}}>p+p',
              'section>{${0}}>div>p', '{${1}${1}}>x', 'div>{[${0} ${1:tail}]}>p*2', 'x>{t${0}}+{u${1:v}${2}}>y*2', 'div>{${0}${1:k}}>ul>li*2', 'a>{(${2}${1:q})}>b*3', 'div>{${0}\n${1:tail}}>p*2']
-COMMENT_RE = re.compile(r'<!--.*?-->', re.S)
+COMMENT_RE = re.compile('<!--.*?-->|\u00ab[^\u00ab\u00bb]*\u00bb', re.S)       # html comments and the «…» templates of the C12 oracle (complete ones only)
 
 
 def oracle_C12(case, o):
@@ -684,7 +712,7 @@ def oracle_C12(case, o):
     # (2) comments only add comment text
     cc = copy.deepcopy(case['c']); cc.setdefault('options', {})['comment.enabled'] = True
     r12 = random.Random(case['s'])
-    ca = r12.choice([None, None, '[\n<!-- /#ID -->]', ' <!-- /[#ID][.CLASS] -->', '\n<!-- /[#ID][.CLASS] -->\n<!-- end -->', '[\n<!-- /.CLASS -->]'])
+    ca = r12.choice([None, None, '[\n<!-- /#ID -->]', ' <!-- /[#ID][.CLASS] -->', '\n<!-- /[#ID][.CLASS] -->\n<!-- end -->', '[\n<!-- /.CLASS -->]', ' \u00ab[#ID][.CLASS]\u00bb', '\n\u00ab[ID]\u00bb', ' \u00ab[.CLASS]!\u00bb'])
     cb = r12.choice([None, None, None, '<!-- [#ID] -->\n', '[<!-- .CLASS -->\n]'])
     if ca is not None: cc['options']['comment.after'] = ca
     if cb is not None: cc['options']['comment.before'] = cb
@@ -743,17 +771,20 @@ def oracle_C12(case, o):
             first_tok = True
             for t in mk.read_html(line):
                 if t[0] == 'open':
-                    if ti not in leaf: depth += 1; open_units.append((units, order[ti] if ti < len(order) else None))
+                    if ti not in leaf: depth += 1; open_units.append((units, order[ti] if ti < len(order) else None, body.lstrip().startswith('<!--')))
                     ti += 1
                 elif t[0] == 'close':
                     depth -= 1
-                    ou, oel = open_units.pop() if open_units else (None, None)
+                    ou, oel, after_comment = open_units.pop() if open_units else (None, None, False)
                     # a closing tag on its own line (first thing on the line) is aligned with the line that holds its opening tag
                     if first_tok and li > 0 and body.startswith('</') and ou is not None and ind and ou != units:
                         # known finding F33: an element that was not given a line of its own but whose OWN content is laid out on separate lines
                         # (multi-line text, or an empty leaf under formatLeafNode / formatForce)
-                        own = oel is not None and ((oel.get('text') and '\n' in oel['text']) or ((opt.get('output.formatLeafNode') or oel['name'].lower() in [x.lower() for x in opt.get('output.formatForce')]) and not oel['kids'] and not oel.get('text')))
-                        v.append('%s| expand(%r, %r): closing tag on line %d %r is indented %d units, the line holding its opening tag %d' % ('align-own-content' if own else 'align', case['s'], cdesc, li, line, units, ou)); break
+                        own = oel is not None and ((oel.get('text') and ('\n' in oel['text'] or '\r' in oel['text'])) or ((opt.get('output.formatLeafNode') or oel['name'].lower() in [x.lower() for x in opt.get('output.formatForce')]) and not oel['kids'] and not oel.get('text')))
+                        # same finding, other trigger: the element was opened on a line that a comment started (the comment's own indentation is
+                        # that of the commented element's children; an inline sibling that follows stays on that line)
+                        kind = 'align-own-content' if own else ('align-comment-line' if after_comment else 'align')
+                        v.append('%s| expand(%r, %r): closing tag on line %d %r is indented %d units, the line holding its opening tag %d' % (kind, case['s'], cdesc, li, line, units, ou)); break
                 first_tok = False
             else: continue
             break
